@@ -6,9 +6,11 @@
 //!
 //! `stack` is the test bed (router thread, listeners, scripted clients, barriers, quiescence
 //! detector); `props` holds the campaigns `c19_campaigns()`, `c16_campaigns()`,
-//! `c20_campaigns()`; `flow` holds the campaign `Flow` ("e5_flow").
+//! `c20_campaigns()`; `flow` holds the campaign `Flow` ("e5_flow"), `isolation` the campaign
+//! `Isolation` ("e5_isolation", C14: the flow pair as witnesses among misbehaving clients).
 
 #![allow(dead_code)]
 pub mod flow;
+pub mod isolation;
 pub mod props;
 pub mod stack;
